@@ -382,6 +382,17 @@ def _run(w, params, chooser):
                 violation = 'clean() raised %r' % (t.exception(),)
 
     if violation is None:
+        # I4a: before any further pool call, a host that has neither a connection (idle or
+        # checked out) nor a client waiting must not be registered any more (idle connections
+        # kept for reuse are fine)
+        if not pool._release_tasks:
+            for key, hp in pool._host_pools.items():
+                if hp.empty() and not pool._host_pool_waiters.get(key):
+                    violation = ('I4 leak: all clients finished, host %r has no connection and '
+                                 'no waiter but is still registered (waiters=%r)'
+                                 % (key[0], dict(pool._host_pool_waiters)))
+                    break
+    if violation is None:
         # I4: drain deferred releases, drop idle connections, nothing may remain
         @asyncio.coroutine
         def final():
@@ -477,6 +488,11 @@ def configs(tier):
     if tier == 'quick':
         c2 = dict(out[0], dual=True)
         jobs.append(dict(params=c2, budget=1, prefix=[]))
+        # two faults together (a connection dies, a waiter is cancelled), two clients
+        for ps in (('plain', 'plain'), ('sess_ok', 'plain'), ('ctx', 'ctx')):
+            jobs.append(dict(params=dict(clients=[(0, p) for p in ps], M=1,
+                                         faults=dict(cancel=1, close=1)),
+                             budget=2, prefix=[]))
     return jobs
 
 
